@@ -223,6 +223,9 @@ def replay_sqlite(chk, sql, model_vals):
     params = {}
     for p, var in chk["params"].items():
         params[p.lstrip(":")] = model_vals.get(var, 0)
+    if chk.get("positional"):
+        # `?` placeholders: bound in order
+        params = [model_vals.get(chk["params"][p], 0) for p in chk["positional"]]
     s = strip_comments(sql)
     verb = s.strip().split()[0].upper()
     if verb == "DELETE":
